@@ -42,7 +42,8 @@ def job(j: dict) -> dict:
     from src.api import Linter
     root = Path(j["root"])
     root.mkdir(parents=True, exist_ok=True)
-    files = projects.build(j["n"], j["cross"], j["layout"], j["offset"])
+    files = projects.build(j["n"], j["cross"], j["layout"], j["offset"], shared_names=j.get("shared_names", False),
+                           force=j.get("force"))
     drive.write_tree(root, dict(files))
     (root / ".thailint.yaml").write_text(projects.CONFIGS[j["config"]])
     if j.get("pats") is not None:
@@ -163,6 +164,15 @@ def run(chk) -> None:
             jobs.append({"n": n, "cross": [[1, 2], [3, 6]], "layout": "nested", "offset": [0, 5, 10][(ci + pi) % 3],
                          "cmd": cmd, "targets": dir_and_files, "config": "base", "explicit": None, "pats": pc["pats"],
                          "root": str(scratch_root() / f"c10-{len(jobs)}" / "proj")})
+    # the same identifiers in every file, and a list accumulator next to a string accumulator of the same name:
+    # whatever a rule remembers per identifier must not travel from one file of a run to the next
+    for ci, cmd in enumerate(cmds):
+        for force in ({4: "collector", 5: "perf"}, {4: "perf", 5: "collector"}, None):
+            if quick and force is None and ci % 2:
+                continue
+            jobs.append({"n": n, "cross": [[1, 2], [3, 6]], "layout": "flat", "offset": [0, 5, 10][ci % 3], "cmd": cmd,
+                         "targets": dir_and_files, "config": "base", "explicit": None, "shared_names": True, "force": force,
+                         "root": str(scratch_root() / f"c10-{len(jobs)}" / "proj")})
     log(f"C10: {len(jobs)} jobs x <= {len(targets)} targets")
     res = pool.run_jobs(job, jobs, nproc=NCPU, timeout=600)
     records, meta = [], []
@@ -179,6 +189,9 @@ def run(chk) -> None:
                 "sel": rec["sel"], "law": rec["law"]}
         if j.get("pats") is not None:
             case["pats"] = j["pats"]
+        if j.get("shared_names"):
+            case["shared_names"] = True
+            case["force"] = j.get("force")
         a = rec["whole"] if rec["law"] == "union" else rec["api"]
         b = [x for p in rec["parts"] for x in p] if rec["law"] == "union" else rec["cli"]
         chk.count(case, nontrivial=bool(a or b))
@@ -193,6 +206,8 @@ def run(chk) -> None:
             key = {"rule": v["rule_id"], "relation": relation, "target": rec["kind"]}
             if j.get("pats"):
                 key["ignore_patterns"] = sorted({p["kind"] for p in j["pats"]})
+            if j.get("shared_names"):
+                key["shared_names"] = True
             chk.reject(key,
                        dict(case, v=v, side=side),
                        f"{relation}: thailint {j['cmd']} on {rec['kind']} {rec['sel']} disagrees on "
